@@ -34,8 +34,8 @@ Partner(k) == CASE k = "post_reset_state" -> "init_state"
                 [] OTHER                  -> ""
 LinkClause(k) == IF k \in {"post_reset_state", "init_state"} THEN "reset_does_not_restore_initial_state"
                  ELSE "extract_differs_from_planned_files"
-How(f, e) == IF f.proc = e.proc THEN "_in_same_interpreter_" \o e.phase
-             ELSE IF f.seed = e.seed THEN "_across_interpreters_with_same_hash_seed"
+How(f, e) == IF f.proc = e.proc THEN "_in_same_interpreter"              \* (the phases tell first / rerun / after reset)
+             ELSE IF f.seed = e.seed THEN "_across_interpreters"         \* same PYTHONHASHSEED, another process
              ELSE "_across_hash_seeds"
 (* fst: function from the keys seen so far to their first observation *)
 Check(fst, e) ==
